@@ -46,7 +46,7 @@ MORE_W = ["->", "--!>", " y=z>", "/>", ";", "amp;<i>", "#38;", "]]>", "<!--x-->"
 
 def cover_tests(ctx):
     """W-method suite from the TLC-computed state cover: prefix . class character . distinguishing suffix"""
-    r = ctx.tlc("MC_TokCover", COVER_CFG, "cover")
+    r = ctx.tlc("MC_TokCover", COVER_CFG, "cover", workers=1)      # one worker: the representative kept per VIEW does not depend on scheduling
     pre = sorted(r.records, key=lambda x: (x["start"], x["st"], x["ret"], len(x["src"]), x["src"]))
     ctx.notes["cover_prefixes"] = len(pre)
     ctx.notes["cover_control_states"] = len(set(x["st"] for x in pre))
